@@ -248,6 +248,7 @@ func (e *Engine) Load(name string) (*Template, error) {
 	var lastModified int64
 	var sourceLoader Loader
 	var loaderErrors []error
+	var loadFailures []error
 	var template *Template
 
 	for _, loader := range e.loaders {
@@ -255,6 +256,11 @@ func (e *Engine) Load(name string) (*Template, error) {
 		if err != nil {
 			// Collect loader errors for better diagnostics
 			loaderErrors = append(loaderErrors, fmt.Errorf("loader %T: %w", loader, err))
+			// A loader that has the template but cannot deliver it has failed; any
+			// other error of a loader that does not have it just means "not here"
+			if !errors.Is(err, ErrTemplateNotFound) && loader.Exists(name) {
+				loadFailures = append(loadFailures, loaderErrors[len(loaderErrors)-1])
+			}
 			continue
 		}
 
@@ -301,14 +307,8 @@ func (e *Engine) Load(name string) (*Template, error) {
 			LogError(ErrTemplateNotFound, errorDetails.String())
 			// A loader that failed for another reason than "not found" has not told us
 			// that the template is missing: report a load failure, not a missing template
-			var failures []error
-			for _, err := range loaderErrors {
-				if !errors.Is(err, ErrTemplateNotFound) {
-					failures = append(failures, err)
-				}
-			}
-			if len(failures) > 0 {
-				return nil, fmt.Errorf("template '%s' could not be loaded: %s%w", name, errorDetails.String(), silentErrors(failures))
+			if len(loadFailures) > 0 {
+				return nil, fmt.Errorf("template '%s' could not be loaded: %s%w", name, errorDetails.String(), silentErrors(loadFailures))
 			}
 			// Keep every loader's own error reachable through errors.Is / errors.As
 			return nil, fmt.Errorf("%w: %s%w", ErrTemplateNotFound, errorDetails.String(), silentErrors(loaderErrors))
